@@ -323,8 +323,17 @@ fn exec_op(db: &DB, keys: &[Vec<u8>], thread: usize, op: &TOp, log: &Mutex<Vec<E
             let res = match it {
                 Ok(it) => {
                     let mut it: DbIter = Box::new(it);
+                    // one iterator is one snapshot: its backward scan must give what its forward
+                    // scan gave, whatever was committed in between
                     match scan_forward(&mut it) {
-                        Ok(kv) => Res::Scan(kv),
+                        Ok(kv) => match scan_backward(&mut it) {
+                            Ok(back) if back == kv => Res::Scan(kv),
+                            Ok(back) => {
+                                let sh = |v: &Vec<(Vec<u8>, Vec<u8>)>| v.iter().map(|(k, v)| format!("{}={}", esc(k), show_val(v))).collect::<Vec<_>>().join(" ");
+                                Res::Err(format!("C03 one iterator, two answers: forward scan [{}], backward scan [{}]", sh(&kv), sh(&back)))
+                            }
+                            Err(e) => Res::Err(e),
+                        },
                         Err(e) => Res::Err(e),
                     }
                 }
@@ -1155,7 +1164,10 @@ pub fn explore(progs: &[Arc<Prog>], bound: (usize, usize), parts: usize, workers
     parking_lot::verif_rt::set_named_level(named_level);
     let shm = Arc::new(Shm::new(1 << 20, 16 << 20));
     assert!(progs.len() <= N_COUNTERS - C_USER, "too many programs for the counter slots");
-    let jobs: Vec<(usize, usize)> = (0..progs.len()).flat_map(|p| (0..parts).map(move |i| (p, i))).collect();
+    // partition-major order: when the budget runs out every program has had part of its schedules
+    // explored (program-major order starved the programs at the end of a list on a loaded machine)
+    let nprogs = progs.len();
+    let jobs: Vec<(usize, usize)> = (0..parts).flat_map(|i| (0..nprogs).map(move |p| (p, i))).collect();
     let mut pids = vec![];
     for _ in 0..workers.max(1) {
         let pid = unsafe { libc::fork() };
